@@ -541,14 +541,17 @@ theorem compile_domain_proper {m : Model (Ext K)} {t : K} {maxSteps : Nat} {lm :
   unfold Compile.linearize at h
   split at h
   · cases h
-  · rename_i cs hcs
-    dsimp only at h
-    have hfin' := hfin
-    simp only [Lin.FiniteLits, Bool.and_eq_true, List.all_eq_true] at hfin'
-    have hcf : ∀ c ∈ cs, ConFin c := normalizedForBounds_fin _ _ (fun c hc => hfin'.2 c hc) hcs
-    have hvb := enforceable_VBP (dom := m.domain) hdecl (analyze_VBP hdecl hcf (.fin t) maxSteps)
-      (by rw [analyze_tolerance]; rfl)
-    exact Lin.domain_proper hfin (boundsProper_of_VBP hvb) (applyToDomain_proper hdecl hvb) h
+  · -- past the up-front collapse check (rooc e35561f), whose scratch context is dropped
+    split at h
+    · cases h
+    · rename_i cs hcs
+      dsimp only at h
+      have hfin' := hfin
+      simp only [Lin.FiniteLits, Bool.and_eq_true, List.all_eq_true] at hfin'
+      have hcf : ∀ c ∈ cs, ConFin c := normalizedForBounds_fin _ _ (fun c hc => hfin'.2 c hc) hcs
+      have hvb := enforceable_VBP (dom := m.domain) hdecl (analyze_VBP hdecl hcf (.fin t) maxSteps)
+        (by rw [analyze_tolerance]; rfl)
+      exact Lin.domain_proper hfin (boundsProper_of_VBP hvb) (applyToDomain_proper hdecl hvb) h
 
 end APr
 end Rooc
